@@ -1095,12 +1095,22 @@ pub(crate) fn verify_total_difficulty(
             let diff = &start_epoch_difficulty;
             let total = &total_difficulty;
             let unaligned = &unaligned_difficulty_calculated;
+            // When `n - k` is even, the longer run of the extreme history (the increasing run of the upper limit
+            // for an increased difficulty, the decreasing run of the lower limit for a decreased one) has a
+            // fractional length `(n + k + 1) / 2`; it has to be rounded up, otherwise a legal history could be
+            // outside the estimated limits.  Passing `k + 1` (then `n - (k + 1)` is odd) does exactly that.
+            let k_rounded_up = if (n - k) % 2 == 0 { k + 1 } else { k };
+            let (k_min, k_max) = match epoch_difficulty_trend {
+                EpochDifficultyTrend::Unchanged => (k, k),
+                EpochDifficultyTrend::Increased { .. } => (k, k_rounded_up),
+                EpochDifficultyTrend::Decreased { .. } => (k_rounded_up, k),
+            };
             let limit = EstimatedLimit::Min;
             epoch_difficulty_trend
-                .check_total_difficulty_limit(limit, n, k, total, diff, tau, unaligned)?;
+                .check_total_difficulty_limit(limit, n, k_min, total, diff, tau, unaligned)?;
             let limit = EstimatedLimit::Max;
             epoch_difficulty_trend
-                .check_total_difficulty_limit(limit, n, k, total, diff, tau, unaligned)?;
+                .check_total_difficulty_limit(limit, n, k_max, total, diff, tau, unaligned)?;
         }
     }
 
